@@ -18,10 +18,11 @@ Record cfg := mkCfg {
   f35 : bool;   (* block selection sorts by key only (no TypeError on equal keys) *)
   f37 : bool;   (* ImportAlreadyExistsError is caught in the add-missing loop too *)
   f38 : bool;   (* a last prologue line without newline is terminated before the new import block *)
-  f40 : bool    (* a bytes-literal statement is not a docstring *)
+  f40 : bool;   (* a bytes-literal statement is not a docstring *)
+  f45 : bool    (* an emptied import block that continued a backslash line prints a newline *)
 }.
-Definition repaired : cfg := mkCfg true true true true true true true true true true.
-Definition unchanged : cfg := mkCfg false false false false false false false false false false.
+Definition repaired : cfg := mkCfg true true true true true true true true true true true.
+Definition unchanged : cfg := mkCfg false false false false false false false false false false false.
 
 (* where the code raises: ConflictingImportsError (ImportSet.pretty_print), LineNumberAmbiguousError,
    Exception("Multiple imports to remove"), TypeError (tuple comparison falls through to the block objects),
@@ -52,18 +53,36 @@ Definition pp_block (c : cfg) (b : block) : res str :=
   | Imps ib => pp_iblock c ib
   end.
 
-(*  result = [block.pretty_print(params=params) for block in self.blocks]; FileText.concatenate(result)  *)
-Fixpoint pp (c : cfg) (bs : list block) : res str :=
+(*  str(text).endswith("\\\n")  *)
+Fixpoint ends_bsnl (s : str) : bool :=
+  match s with
+  | [] => false
+  | [a; b] => (a =? c_bslash)%N && (b =? c_nl)%N
+  | _ :: r => ends_bsnl r
+  end.
+
+(*  result = []
+    for block in self.blocks:
+        text = block.pretty_print(params=params)
+        [F45]  if not text and result and isinstance(block, ImportBlockTransformation) and result[-1] ends with "\\\n": text = "\n"
+        result.append(text)
+    return FileText.concatenate(result)
+    `prev` = the text of the previous block ends with backslash-newline  *)
+Fixpoint pp_from (c : cfg) (prev : bool) (bs : list block) : res str :=
   match bs with
   | [] => Ok []
   | b :: r => match pp_block c b with
               | Err e => Err e
-              | Ok t => match pp c r with
-                        | Err e => Err e
-                        | Ok t' => Ok (t ++ t')
-                        end
+              | Ok t0 =>
+                  let t := if f45 c && prev && is_nil t0 && (match b with Imps _ => true | Other _ _ => false end)
+                           then [c_nl] else t0 in
+                  match pp_from c (ends_bsnl t) r with
+                  | Err e => Err e
+                  | Ok t' => Ok (t ++ t')
+                  end
               end
   end.
+Definition pp (c : cfg) (bs : list block) : res str := pp_from c false bs.
 End WithRender.
 
 (* ---------------------------------------------------------------------------------------------- *)
